@@ -301,9 +301,18 @@ def r4_one_counter(ctx):
                     ex = ex or Exprs(f)
                     flds = info_fields(f, ex, rv)
                     res = {}
-                    for name in ("nodes", "time"):
+                    for name in ("nodes", "time", "depth"):
                         t = flds.get(name)
                         if t is None:
+                            continue
+                        if name == "depth":
+                            tt = t
+                            if tt[0] == "f" and tt[1][0] == "call" and tt[1][1] == SEARCH + "generate_info":
+                                tt = gi_fields.get(name, tt)
+                            if (tt[0] == "f" and tt[1][0] == "c") or (tt[0] == "c" and "None" in str(tt[1])) or (tt[0] == "agg" and tt[2].endswith("Option::None")):
+                                res[name] = "EMPTY"
+                            else:
+                                res[name] = "set"
                             continue
                         # functional update `..self.generate_info()`: the field is moved out of the call's result
                         if t[0] == "f" and t[1][0] == "call" and t[1][1] == SEARCH + "generate_info":
@@ -336,6 +345,13 @@ def r4_one_counter(ctx):
            "" if ok else "info lines of one search report `nodes` from different counters %s: %s - a line fed from a counter that is not restarted per go reports more nodes than the next line (nodes decrease within a search)"
            % (sorted(node_src), {("%s:%d" % (k.rsplit("::", 1)[-1], l)): v.get("nodes") for (k, l), v in sources.items()}), "",
            sample={"sources": {("%s:%d" % (k.rsplit("::", 1)[-1], l)): v for (k, l), v in sources.items()}})
+    # depth: only the iteration report of best_move carries a depth; a progress line that also carries one reports
+    # the running iteration, which the (possibly aborted, depth - 1) iteration report that follows undercuts
+    deep = sorted("%s:%d" % (k.rsplit("::", 1)[-1], l) for (k, l), v in sources.items() if v.get("depth") == "set" and k != SEARCH + "best_move")
+    has_report = any(v.get("depth") == "set" and k == SEARCH + "best_move" for (k, l), v in sources.items())
+    ctx.ob(rid, "depth-only-in-the-iteration-report", not deep and has_report,
+           "" if (not deep and has_report) else ("info lines built outside Search::best_move carry a depth (%s): the iteration report of an interrupted iteration states depth - 1, so the reported depth decreases within one search" % deep if deep else "the iteration report of Search::best_move carries no depth"),
+           "", sample={"depth_sources": {("%s:%d" % (k.rsplit("::", 1)[-1], l)): v.get("depth") for (k, l), v in sources.items()}})
     time_src = {v["time"] for v in sources.values() if v.get("time") not in (None, "EMPTY")}
     ok = time_src <= {"elapsed"} and bool(time_src)
     ctx.ob(rid, "time-from-search-clock", ok, "" if ok else "info lines report `time` from %s (expected SearchState::elapsed of the running search)" % sorted(time_src), "")
